@@ -2,6 +2,9 @@
 //!
 //! UDP: the real `UdpClientStream::send_message` over a scripted `DnsUdpSocket`/`RuntimeProvider`
 //! in virtual time (`c16/udp.rs`, `c16/vtime.rs`).
+//! Streams: the real `DnsMultiplexer` over a scripted `DnsClientStream`, polled by hand with a counting
+//! waker (`c16/mux.rs`, begin…end blocks with a model side), and end to end through `DnsExchange` under
+//! a wake-driven executor (`c16/xchg.rs`, implementation-vs-oracle only).
 use std::net::{IpAddr, Ipv4Addr, Ipv6Addr, SocketAddr};
 
 use crate::common::*;
